@@ -59,9 +59,9 @@ let () = each_line (fun l ->
        | "tE" -> let h = num t in incr nmut; note_shared_t h; written_t := [h]; tstep (VMut (nh h, t_erasefinals))
        | "tX" -> let h = num t in incr nmut; note_shared_t h; written_t := [h]; tstep (VMut (nh h, t_clear))
        | "tQ" -> let h = num t in note_shared_t h; written_t := [h]; tstep (VMut (nh h, (fun v -> v)))
-       | "tU" | "tL" | "tJ" | "tY" | "tI" ->
+       | "tU" | "tL" | "tJ" | "tY" | "tI" | "tT" ->
          let h = num t in let s1 = num t in let s2 = if k = "tY" || k = "tJ" then num t else s1 in
-         let (m, off) = if k = "tI" then (let m = read_map "M" t in let off = nh (num t) in (m, off)) else ([], N0) in
+         let (m, off) = if k = "tI" || k = "tT" then (let m = read_map "M" t in let off = nh (num t) in (m, off)) else ([], N0) in
          let a = tget s1 and b = tget s2 in
          incr nlib; written_t := [h];
          let (ma, mb) = if k = "tY" then (let ma = read_map "MA" out in let mb = read_map "MB" out in (ma, mb)) else ([], []) in
@@ -78,7 +78,7 @@ let () = each_line (fun l ->
          let r = List.nth !log j in
          expect out "P";
          (match r.kind with
-          | "tU" | "tL" | "tJ" | "tI" -> let x = read_ta out in if not (t_obs_eq r.tres x) then fail "replay_differs"
+          | "tU" | "tL" | "tJ" | "tI" | "tT" -> let x = read_ta out in if not (t_obs_eq r.tres x) then fail "replay_differs"
           | "tY" -> let x = read_ta out in let ma = read_map "MA" out in let mb = read_map "MB" out in
                     if not (t_union_gate ma mb r.ta_ r.tb_ x) then fail "replay_differs"
           | "wU" | "wL" | "wJ" -> let x = read_w out in if not (w_vis_eq r.wres x) then fail "replay_differs"
@@ -137,6 +137,12 @@ let () = each_line (fun l ->
                     if not (t_obs_eq r (t_union_disjoint a b)) then fail "union_disjoint_value"
           | "tY" -> if not (t_union_gate ma mb a b r) then fail "union_value";
                     if not (t_union_gate xa xb a b x) then fail "result_not_function_of_operands"
+          | "tT" ->
+                 (* TranslateSymbols: the rules with their symbols mapped (table, unlisted x -> x + off), the same final states (plain glue comparison as sets) *)
+                 let g sy = (match List.assoc_opt sy m with Some v -> v | None -> n_of_int (int_of_n sy + int_of_n off)) in
+                 let expected = { rules = List.map (fun (rl : rule) -> { rl with sym = g rl.sym }) a.rules; finals = a.finals } in
+                 if not (t_obs_eq r expected) then fail "translate_value";
+                 if not (t_obs_eq r x) then fail "result_not_function_of_operands"
           | _ -> let hf = app_map m off in
                  if not (t_image_gate hf a r) then fail "reindex_value";
                  if not (t_obs_eq r x) then fail "result_not_function_of_operands");
